@@ -22,7 +22,10 @@ ALLOW_PREFIX = (
     "core::option::Option::<T>::filter", "core::option::Option::<T>::or", "core::option::Option::<T>::as_ref",
     "core::result::Result::<T, E>::map", "core::result::Result::<T, E>::ok", "core::ops::function::", "core::marker::",
     "core::str::<impl str>::is_empty", "core::str::<impl str>::len", "core::default::",
+    # inherent float methods never panic (clamp, which asserts min <= max, is excluded below)
+    "core::f64::<impl f64>::", "core::f32::<impl f32>::", "std::f64::<impl f64>::", "std::f32::<impl f32>::",
 )
+DENY_EXACT = ("core::f64::<impl f64>::clamp", "core::f32::<impl f32>::clamp")
 FPDEC_ARITH_TRAITS = ("core::ops::arith::Add", "core::ops::arith::Sub", "core::ops::arith::Mul", "core::ops::arith::Div", "core::ops::arith::Neg")
 
 EXPECTED = {
@@ -88,7 +91,7 @@ def inventory(ctx, config, crate, amt):
                 continue  # local / workspace callee: analysed on its own
             if tr in FPDEC_ARITH_TRAITS and self_ty.lstrip("&") in ("f64",):
                 continue
-            if any(declared.startswith(x) or p.startswith(x) for x in ALLOW_PREFIX):
+            if declared not in DENY_EXACT and any(declared.startswith(x) or p.startswith(x) for x in ALLOW_PREFIX):
                 continue
             if f.get("local") or (f.get("resolved") or {}).get("local"):
                 continue
